@@ -504,6 +504,39 @@ def rule_raise(ctx, rep):
     rep.extra['reachable_functions'] = len(reach)
 
 
+def rule_charref_total(ctx, rep):
+    """Resolving character references never raises: the inline tokenizer and the destination / title resolver, folded
+    on the table of sa/charref.py (which has a row for every kind of reference, the ones that name no code point -
+    out of range, surrogates, U+0000 - included), return a text on every row."""
+    from .. import charref
+    model = ctx.model
+    rule = 'R-CHARREF-TOTAL'
+    rep.rule(rule, 'resolving a character reference never raises (table of reference kinds, code points that do not exist included)')
+    tk_ = model.func('span_tokenizer.tokenize')
+    targets = [('span_tokenizer.tokenize', lambda t: charref.fold(model, tk_, [t, [charref.Recorder()]]))]
+    if model.has_func('span_token.EscapeSequence.strip') or 'strip' in model.cls('span_token.EscapeSequence').methods:
+        es = model.cls('span_token.EscapeSequence')
+        st = es.methods.get('strip')
+        if st is not None:
+            targets.append((st.short, lambda t: charref.fold(model, st, [es, t])))
+    n = 0
+    for where, f in targets:
+        rep.instance(rule)
+        bad = []
+        for text, want in charref.TABLE:
+            got = f(text)
+            n += 1
+            if isinstance(got, str) and got.startswith('raises '):
+                bad.append((text, got))
+        rep.obligation(rule, not bad, {'function': where, 'rows': len(charref.TABLE), 'raising': [b[0] for b in bad]})
+        if bad:
+            fi = model.func(where) if model.has_func(where) else tk_
+            rep.find(rule, where, 'raises:%s' % bad[0][1].split()[-1],
+                     '%s %s on the text %r (%d of %d rows of the character reference table raise)'
+                     % (where, bad[0][1], bad[0][0], len(bad), len(charref.TABLE)), loc(model.unit_of(fi), fi.node), witness=bad[0][0])
+    rep.floor(rule, n, 20)
+
+
 def run(ctx):
     rep = ctx.report
     facts = get_facts(ctx)
@@ -514,6 +547,7 @@ def run(ctx):
     rule_ctor_total(ctx, rep, facts, sib)
     rule_progress(ctx, rep, facts)
     rule_raise(ctx, rep)
+    rule_charref_total(ctx, rep)
     # "Delimiter.remove / index bookkeeping after a match": the delimiter stack surgery, on bounded stacks (C06's simulation)
     from . import c06
     c06.rule_stack_sim(ctx, rep, only_raises=True)
